@@ -150,24 +150,31 @@ def markerArg (kw : Str) (trimmed : Str) : Option Str :=
     | none => none
     | some s' => stripSuffix [')'] s'
 
+def kwSkip : Str := ":skip".toList
+def kwPlatform : Str := ":platform".toList
+def kwFailFast : Str := ":fail-fast".toList
+def kwError : Str := ":error".toList
+def kwLanguage : Str := ":language".toList
+def kwCst : Str := ":cst".toList
+
 /-- One non-closing line of the name/marker region. `none` = header rejected (blank line before any marker). -/
 def headerLine (os : Str) (st : HState) (line : Str) : Option HState :=
   let trimmed := trim line
   if trimmed.isEmpty && !st.seenMarker then none
   else
     let head := trimmed.takeWhile (· != '(')
-    if head == ":skip".toList then some { st with seenMarker := true, seenSkip := true }
-    else if head == ":platform".toList then
+    if head == kwSkip then some { st with seenMarker := true, seenSkip := true }
+    else if head == kwPlatform then
       match markerArg "platform".toList trimmed with
       | some ps => some { st with seenMarker := true, platform := some (st.platform.getD false || trim ps == os) }
       | none => some st
-    else if head == ":fail-fast".toList then some { st with seenMarker := true, failFast := true }
-    else if head == ":error".toList then some { st with seenMarker := true, seenError := true }
-    else if head == ":language".toList then
+    else if head == kwFailFast then some { st with seenMarker := true, failFast := true }
+    else if head == kwError then some { st with seenMarker := true, seenError := true }
+    else if head == kwLanguage then
       match markerArg "language".toList trimmed with
       | some l => some { st with seenMarker := true, languages := st.languages ++ [l] }
       | none => some st
-    else if head == ":cst".toList then some { st with seenMarker := true, cst := true }
+    else if head == kwCst then some { st with seenMarker := true, cst := true }
     else if !st.seenMarker then some { st with testName := st.testName ++ line }
     else some st
 
